@@ -72,9 +72,25 @@ fn struct_names(d: &DElem, out: &mut Vec<String>) {
 impl HistoryCase {
     /// `D<k> {dom events result}* R<m> {options TX text}*` — runs the implementation
     pub fn build(&self) -> Built {
+        self.build_from(None)
+    }
+
+    /// the tree the implementation holds after all documents (rejected documents leave it as it was)
+    pub fn final_tree(&self) -> Option<xml_schema_generator::Element<String>> {
+        let mut tree: Option<xml_schema_generator::Element<String>> = None;
+        for d in &self.docs {
+            if let Step::Ok(e) = implrun::step(&d.bytes, self.cfg, tree.as_ref()) {
+                tree = Some(e);
+            }
+        }
+        tree
+    }
+
+    /// as `build`, but the first document extends `init` if one is given
+    pub fn build_from(&self, init: Option<xml_schema_generator::Element<String>>) -> Built {
         let mut body = format!("D{}", self.docs.len());
         let mut info = Info { docs: self.docs.len(), ..Default::default() };
-        let mut tree: Option<xml_schema_generator::Element<String>> = None;
+        let mut tree: Option<xml_schema_generator::Element<String>> = init;
         for d in &self.docs {
             info.bytes += d.bytes.len();
             let (evs, st) = record::record(&d.bytes, self.cfg);
@@ -289,7 +305,7 @@ impl HistoryCase {
     }
 }
 
-fn shrink_node(n: &Node) -> Vec<Node> {
+pub fn shrink_node(n: &Node) -> Vec<Node> {
     let mut out = Vec::new();
     // drop an item
     for i in 0..n.items.len() {
